@@ -184,6 +184,21 @@ def documented_refusal(case, gen, ops_text: List[str], cfg) -> Optional[str]:
     return None
 
 
+def relabel_string_literal_findings(case, queries: str, violations: List[Violation]) -> None:
+    """Listed findings about GraphQL string literals are keyed by the literal class the document really contains."""
+    import re
+    dirty = set(case.get("dirty", []))
+    has_single = bool(re.search(r'"[^"\n]*\'[^"\n]*"', queries))
+    has_block = '"""' in queries
+    has_escape = bool(re.search(r'"[^"\n]*\\[nt][^"\n]*"', queries))
+    for v in violations:
+        if v.prop == "C04" and v.clause == "generation-internal-error" and "InvalidInput" in v.mech and (
+                ("strlit.single_quote" in dirty and has_single) or ("strlit.block" in dirty and has_block)):
+            v.mech = "string-literal-quote-or-block-breaks-generation"
+        if v.prop == "C02" and "strlit.escape_n" in dirty and has_escape and v.clause in ("arguments", "sent-parses", "sent-valid", "variable-definitions"):
+            v.mech = "string-literal-newline-escape-altered"
+
+
 def worker(case: Dict[str, Any]) -> CaseResult:
     from graphql import OperationDefinitionNode, parse
 
@@ -223,9 +238,11 @@ def worker(case: Dict[str, Any]) -> CaseResult:
                 return CaseResult("held", stats=stats, sets={"features": feats})
             if "C04" in props:
                 kind = "typed-refusal-on-valid-input" if gen.exc_is_codegen else "internal-error"
+                pass
                 violations.append(Violation("C04", "generation-" + kind, "valid input, generation failed with %s: %s\n%s" % (
                     gen.exc_type or ("exit code %d" % gen.exit_code), str(gen.exception)[:300], gen.traceback[-1200:] if not gen.exc_is_codegen else (gen.stdout[-300:])),
                     feats, replay_case, mech="c04:generation-%s:%s" % (kind, gen.exc_type)))
+                relabel_string_literal_findings(case, queries, violations)
                 return CaseResult("violated", [v.to_json() for v in violations], stats, {"features": feats})
             return CaseResult("inconclusive", note="generation failed (%s) - C04's concern" % gen.exc_type, stats={"generation_failed": 1})
         count("generated")
@@ -338,6 +355,7 @@ def worker(case: Dict[str, Any]) -> CaseResult:
                                    authored_doc=authored, opnode=opnode)
             if tracer is not None and tracer.open_spans():
                 violations.append(Violation("C01", "spans-closed", repr(tracer.open_spans())[:200], feats, replay_case, mech="c01:spans-closed"))
+    relabel_string_literal_findings(case, queries, violations)
     status = "violated" if violations else "held"
     sample = None
     if case["idx"] < 2:
